@@ -3,13 +3,13 @@ CFG = dict(
     dirs=["Common", "C03"], gen=True,
     run_targets=["C03/Run.vo"], proof_targets=["C03/Props.vo"], props="C03/Props.v",
     gen_obligations=[
-        "Inst.gen_c03_spec: commit is gated on phase == Prepared, record_vote on phase == Preparing, prepare does not write the store, abort re-applies the undo log, the participant refuses a Prepare for a transaction it already decided and records decisions on commit/abort, cleanup_timeouts spares Committing transactions and coordinator abort() refuses them, recover() assigns a phase only inside the Preparing/Prepared arms and Committing only under all_yes(), the participant sweeps cleanup_stale/recover never touch the decided set (the facts the model's coordinator/participant steps encode)",
+        "Inst.gen_c03_spec: commit is gated on phase == Prepared, record_vote on phase == Preparing, prepare does not write the store, abort re-applies the undo log, the participant refuses a Prepare for a transaction it already decided and records decisions on commit/abort, cleanup_timeouts spares Committing transactions and coordinator abort() refuses them, recover() assigns a phase only inside the Preparing/Prepared arms and Committing only under all_yes(), the participant sweeps cleanup_stale/recover never touch the decided set, participant abort() remembers the transaction whether or not it was prepared there, apply_operations never leaves its loop early (the facts the model's coordinator/participant steps encode)",
     ],
     crate="nvh_c03", shard=60,
     header=H + "From NV.Common Require Import LockTable.\nFrom NV.C03 Require Import Model Run.\nOpen Scope N_scope.",
     kinds={"sched": ("c03_case", "check_2pc")},
     known_classes={0: "undo-after-foreign-commit", 1: "presumed-abort-after-yes"},
-    rule="seeded message schedules (loss, duplication, reordering, late and duplicate votes, stray votes from non-participant shards, re-sent votes with different content for a shard that already voted, commit messages arriving after the participant's key locks expired, delayed duplicate Prepare+Commit of a transaction arriving after a later transaction committed the same key, stale locks of never-resolved transactions, coordinator timeouts at any point, coordinator recover() + get_pending_decisions() broadcasts and complete_commit/complete_abort at any point (before and after the deadline, repeated), participant housekeeping sweeps cleanup_stale(t)/recover(t) at any point (also between the end of a transaction and the arrival of its delayed duplicates), 1-3 concurrent transactions over 2-3 shards, participant lock expiry through the clock hook) on one real DistributedTxCoordinator and real TxParticipants, and on the Gallina model",
+    rule="seeded message schedules (loss, duplication, reordering, late and duplicate votes, stray votes from non-participant shards, re-sent votes with different content for a shard that already voted, commit messages arriving after the participant's key locks expired, delayed duplicate Prepare+Commit of a transaction arriving after a later transaction committed the same key, stale locks of never-resolved transactions, coordinator timeouts at any point, coordinator recover() + get_pending_decisions() broadcasts and complete_commit/complete_abort at any point (before and after the deadline, repeated), participant housekeeping sweeps cleanup_stale(t)/recover(t) at any point (also between the end of a transaction and the arrival of its delayed duplicates), 1-3 concurrent transactions over 2-3 shards, participant lock expiry through the clock hook; operations Put / Delete / CompareAndSwap with matching and non-matching expectations; an Abort overtaking the Prepare) on one real DistributedTxCoordinator and real TxParticipants, and on the Gallina model",
     trusted_base=COMMON_TB + [
         "guarded clock hook tensor_chain::distributed_tx::verif_clock (commit 317762a3) replaces wall-clock reads by an explicit `now`",
         "modelled, not verified: the message bag and the driver (who calls commit/abort/cleanup_timeouts and forwards the resulting broadcasts) are the harness's, mirroring cluster.rs / the integration tests; TensorStore as key -> one-byte value; HashMap as association list (cleanup_timeouts / take_pending_aborts order canonicalised by sorting on both sides); transaction ids and lock handles renamed to small numbers in order of issue; the TxWal and the delta-similarity arithmetic are outside the model (deltas are zero, or identical one-hot vectors to force the cross-shard-conflict abort)",
